@@ -55,3 +55,80 @@ LEVEL_TEXT["C02"] = {
     "note": "Window widening is by sleeping/spinning at hook points; interleavings between hook points are reached only through OS preemption (CPU restriction helps). The set_thread_state helper path is confirmed hit in the non-trivial cases by hook counters.",
     "technique": "property-based testing (rapidcheck choice tape, fork-per-case runtime, hook perturbation plans, state-based deadlock oracle)",
 }
+
+PROPS["C05"] = {
+    "targets": [rt("props/C05_lifecycle.cpp", 300, 70, 5000, 900)],
+    "rule": "case = history of 1..3 runtime incarnations, each with its own scheduler config, entry variant (start(nullptr) / start(f) / "
+            "init(f) with the history driven from inside pika_main), finalize caller (main / pika_main / task / external OS thread) and a "
+            "generated task program whose waves are submitted by steps in {submit, wait, suspend+submit-while-suspended+resume, external "
+            "burst concurrent with wait}; non-trivial iff >=2 incarnations, or a wait() was issued while submitted work was unfinished, or "
+            "work was submitted during a suspension; distinct by hash of the decoded history",
+    "floor": {"quick": 30, "thorough": 300},
+    "assumptions": ["preconditions respected: stop/suspend/resume only from non-pika threads, finalize exactly once per incarnation",
+                    "tasks submitted concurrently with wait() are only required by the next wait()/stop()"],
+}
+LEVEL_TEXT["C05"] = {
+    "text": "Generated start/submit/wait/suspend/resume/finalize/stop histories over several runtime incarnations are run on the real runtime in a fresh process; a completion ledger is read immediately after every wait() and stop() (every task submitted before the call and all descendants must be finished), a suspended-flag is tested at every body segment entry, stop()'s result is compared with the entry function's, and the state-based quiescence detector turns a stuck wait()/suspend() into a violation. Exploration: the idle-detection race is schedule-dependent and can only be sampled.",
+    "note": "Schedules sampled; perturbation at task activation/termination sites; watchdog expiry is inconclusive.",
+    "technique": "property-based testing (generated life-cycle histories, ledger oracle, fork-per-case real runtime)",
+}
+
+PROPS["C06"] = {
+    "targets": [rt("props/C06_mutex.cpp", 400, 70, 6000, 900)],
+    "rule": "case = scheduler config + perturbation plan at mutex::lock/unlock, cv wait/notify and suspend/resume sites x 1..3 locks "
+            "(mutex, timed_mutex, recursive_mutex<pika::mutex>, recursive_mutex<spinlock>, spinlock) x 2..24 tasks each running 1..7 blocks "
+            "(lock / try_lock / try_lock_for(0..30s) / recursive lock^k / misuse probes relock-owned and unlock-foreign in throwing and "
+            "error_code form) with critical sections made of unprotected counter read-spin-write, multi-word pattern write/verify, yield, "
+            "suspend on a side event, forced migration; non-trivial iff a lock() found the lock occupied AND a holder migrated or suspended "
+            "inside its critical section; distinct by hash of the decoded case",
+    "floor": {"quick": 30, "thorough": 300},
+    "assumptions": ["a timed try_lock_for returning false is accepted whenever the lock may have been contended (non-claim)",
+                    "spinlocks are not held across a suspension of the owner (documented use)"],
+}
+LEVEL_TEXT["C06"] = {
+    "text": "Generated contention programs over all pika lock types run on the real runtime; oracles: occupancy counter (never >1, owner identity for recursive re-entry), torn-pattern detector for visibility between critical sections, try_lock true implies 0->1 occupancy, documented errors for misuse probes with the lock still usable afterwards, and the state-based quiescence detector reporting 'lockers blocked although the lock is free' as a lost unlock. Exploration level: schedule-dependent, sampled with perturbation at the named hand-off sites.",
+    "note": "Interleavings sampled; timed false results are not judged; watchdog expiry is inconclusive.",
+    "technique": "property-based testing (generated lock scripts, occupancy/visibility/deadlock oracles, fork-per-case real runtime)",
+}
+
+PROPS["C13"] = {
+    "targets": [rt("props/C13_thread.cpp", 500, 70, 8000, 900)],
+    "rule": "case = scheduler config + perturbation plan at thread::join (between exit-callback registration and suspend), "
+            "run_thread_exit_callbacks and the suspend/resume sites x 1..8 scenarios in {join, detach, self-join, interrupt, jthread}; "
+            "thread bodies from {spin, yield, interruption_point, wait on event, disable_interruption scopes, spawn+join grandchild, sleep}; "
+            "controller delays select whether the target terminates before, between or after the two steps of join; second join probes; "
+            "exit callbacks; non-trivial iff a join really suspended AND (another join in the case found its target already done OR a wake-up "
+            "hit a still-active joiner), or an interruption was delivered; distinct by hash of the decoded case",
+    "floor": {"quick": 30, "thorough": 300},
+    "assumptions": ["a wait that does not block is not an interruption point", "watchdog expiry is inconclusive"],
+}
+LEVEL_TEXT["C13"] = {
+    "text": "Generated join/detach/self-join/interrupt/jthread scenarios on the real runtime with perturbation at the two sites the property names; oracles: body-finished and exit-callback flags read right after join returns, joinable() after join/detach, documented errors for double and self join, the op at which thread_interrupted surfaced must be an interruption point reached with interruption enabled and after a request (and an accepted request must be delivered at the next enabled interruption point), jthread destructor returns only after the body saw stop_requested and finished; join that never returns is caught by the state-based quiescence detector. Exploration: the three join paths are selected by the schedule, which is sampled.",
+    "note": "Join-path coverage (refused callback / wake of active joiner / normal wake) is measured from hooks and reported in the evidence classification.",
+    "technique": "property-based testing (generated thread scenarios, flag/ordering oracles, fork-per-case real runtime)",
+}
+
+def vt(src, q_cases, q_budget, t_cases, t_budget, shards=8, size=100, **kw):
+    d = {"src": src, "flavour": "rel", "engine": "E-vt",
+         "quick": {"shards": shards, "cases": q_cases, "budget": q_budget, "size": size},
+         "thorough": {"shards": 14, "cases": t_cases, "budget": t_budget, "size": size}}
+    d.update(kw)
+    return d
+
+PROPS["C08"] = {
+    "targets": [vt("props/C08_semaphore_vt.cpp", 15000, 60, 150000, 600)],
+    "rule": "case = semaphore kind (counting_semaphore<>, counting_semaphore<1>, sliding_semaphore) x initial count x 2..4 logical threads "
+            "with scripts over release(n)/acquire/try_acquire/try_acquire_for(inf|finite)/try_acquire_until(finite) (sliding: "
+            "wait(u)/signal(l)/try_wait) x a schedule tape that decides every context switch at hook points and agent operations "
+            "(the harness owns the schedule and the clock: a finite deadline passes only when the tape says so); supply covers every "
+            "acquisition attempt by construction; non-trivial iff >=1 acquirer really blocked and was released later or a timed acquire "
+            "slept before the release; distinct by hash of (scripts, schedule position)",
+    "floor": {"quick": 200, "thorough": 2000},
+    "assumptions": ["sequentially consistent interleavings at hook/agent granularity only (no weak-memory effects)",
+                    "wake-up before suspend is modelled as a pending token (the meaning the task path gives it)"],
+}
+LEVEL_TEXT["C08"] = {
+    "text": "The real semaphores run on harness-owned virtual threads: the schedule is part of the generated case, so each execution is deterministic, shrinkable and all-blocked states are detected exactly. Oracles: permit ledger at every success (acquisitions <= initial + released), drain equality at the end, exact deadlock detection under sufficient supply, and for timed acquires: false only if the scheduler fired that deadline (the harness owns the clock). Exploration of schedules by generated tapes.",
+    "note": "Schedules are sampled from generated tapes (tens of thousands per run), not exhausted; interleavings are at hook/agent-operation granularity and sequentially consistent.",
+    "technique": "property-based testing with harness-owned deterministic schedules (virtual threads), ledger and deadlock oracles",
+}
